@@ -19,7 +19,7 @@ EXHAUSTIVE = False
 ASSUMPTIONS = ["a Packet is a [188]byte value; data slices have cap = len",
                "views vs copies (aliasing) are observed by goexec only: function Payload/Header return views, method Payload a copy",
                "the model follows /root/work/repo-fixed (F6, F7 repaired, C05 guards)"]
-PARTIAL = ("SetAdaptationFieldControl transitions other than 01->10, 01->11 and 11->11, the function-style SetPayload of create.go, and Create with arbitrary option lists "
+PARTIAL = ("SetAdaptationFieldControl transitions other than 01->10, 01->11 and 11->11, and Create with arbitrary option lists "
            "(incl. WithPES) are tied by the correspondence only (fidelity cases)")
 
 FLAG_PCR, FLAG_OPCR, FLAG_SPLICE, FLAG_TPD, FLAG_EXT = 0x10, 0x08, 0x04, 0x02, 0x01
@@ -131,7 +131,7 @@ def gen(rng, tier):
                 out.append(Case("pay.set_afc %s %d" % (hx(p), v), kind="set-afc" if proved else "fidelity-set-afc-other", decides=proved,
                                 nontrivial=proved, theorem="C02_set_afc_creates" if afc == 1 else ("C02_set_afc3_noop" if proved else "")))
         if rng.random() < 0.3:
-            out.append(Case("pay.set_fn %s %s" % (hx(p), hx(rb(rng, rng.randrange(201)))), kind="set-fn", decides=False, theorem="(no theorem: correspondence only)"))
+            out.append(Case("pay.set_fn %s %s" % (hx(p), hx(rb(rng, rng.randrange(201)))), kind="set-fn", theorem="C02_set_payload_fn"))
     # ---- malformed packets: fidelity only
     mal = []
     base = [x for x, _ in pk]
